@@ -820,7 +820,9 @@ async fn execute_async(case: &Case) -> Exec {
             // way of reaching the same discrepancy keeps its own signature
             if st.lookup_failed_while_alive.contains(path) {
                 "/after_pid_lookup_error"
-            } else if untracked_after_failed_start.contains(path) {
+            } else if env.glue == Glue::Direct && untracked_after_failed_start.contains(path) {
+                // (under the CLI glue every command refreshes the registry first, which repairs this
+                // record on the unchanged tree: there the discrepancy keeps its plain signature)
                 "/after_start_failed_post_launch"
             } else {
                 ""
